@@ -157,7 +157,7 @@ def build_from_world(old_world, new_config: dict, new_name: str = None):
         if 'name' in new_config:
             # There is a name in the new configuration file. Is it the same as the previous world's name?
             new_name = new_config['name']
-            if new_name == old_config_copy['name']:
+            if new_name in (old_config_copy['name'], old_world.name):
                 variant = True
         else:
             new_name = combo_dict['name']
@@ -165,7 +165,7 @@ def build_from_world(old_world, new_config: dict, new_name: str = None):
     else:
         # User provided a new name as an argument, use it over anything else
         # Check if it matches the old world's name.
-        if new_name == old_config_copy['name']:
+        if new_name in (old_config_copy['name'], old_world.name):
             variant = True
 
     if variant:
